@@ -817,6 +817,7 @@ package evaluator
 //@   loop 1
 //@     invariant isArr(v0) && a == arr(v0) && len(a) > 0 && isStr(a[0]) && aligned(max) && allStr(old(heap), a, iter + 1)
 //@     invariant forall k Int :: 0 <= k && k <= iter ==> isStr(a[k]) && !(str(a[k]) > max)
+//@     invariant forall k Int :: 0 <= k && k < len(a) - 1 ==> a[1:][k] == at(old(heap), a, k + 1)
 //@   loop 2
 //@     invariant isArr(v0) && a == arr(v0) && len(a) > 0 && numOk(a[0]) && allNum(old(heap), a, iter + 1)
 //@     invariant forall k Int :: 0 <= k && k <= iter ==> numOk(a[k]) && decCmp(numDec(a[k]), max) != 1
@@ -833,7 +834,29 @@ package evaluator
 //@   loop 1
 //@     invariant isArr(v0) && a == arr(v0) && len(a) > 0 && isStr(a[0]) && aligned(min) && allStr(old(heap), a, iter + 1)
 //@     invariant forall k Int :: 0 <= k && k <= iter ==> isStr(a[k]) && !(str(a[k]) < min)
+//@     invariant forall k Int :: 0 <= k && k < len(a) - 1 ==> a[1:][k] == at(old(heap), a, k + 1)
 //@   loop 2
 //@     invariant isArr(v0) && a == arr(v0) && len(a) > 0 && numOk(a[0]) && allNum(old(heap), a, iter + 1)
 //@     invariant forall k Int :: 0 <= k && k <= iter ==> numOk(a[k]) && decCmp(numDec(a[k]), min) != 0 - 1
 //@     invariant forall k Int :: 0 <= k && k < len(a) - 1 ==> a[1:][k] == at(old(heap), a, k + 1)
+
+// sort_by / max_by / min_by: the key of every element, including the only element of a one-element
+// array, is evaluated with the caller's scope and must be a string or a number (C13, C02, C19)
+//@ func evaluator.sortArrayBy
+//@   ensures type.array: !isArr(value) ==> result == nil && isTypeErr(err)
+//@   ensures failure: err != nil ==> result == nil
+//@   ensures empty: isArr(value) && len(arr(value)) == 0 ==> err == nil && result == value
+//@   ensures[C13 C19] first.key: isArr(value) && len(arr(value)) >= 1 && err == nil ==> isEv(e.root, node, arr(value)[0], variables, call1) && (isStr(call1) || numOk(call1))
+//@   ensures[C13 C06] fresh: isArr(value) && len(arr(value)) >= 1 && err == nil ==> isArr(result) && fresh(arr(result)) && len(arr(result)) == len(arr(value))
+//@ func evaluator.arrayMaxBy
+//@   ensures type.array: !isArr(value) ==> result == nil && isTypeErr(err)
+//@   ensures failure: err != nil ==> result == nil
+//@   ensures empty: isArr(value) && len(arr(value)) == 0 ==> err == nil && result == nil
+//@   ensures[C13 C19] first.key: isArr(value) && len(arr(value)) >= 1 && err == nil ==> isEv(e.root, node, arr(value)[0], variables, call1) && (isStr(call1) || numOk(call1))
+//@   ensures[C13] element: isArr(value) && len(arr(value)) >= 1 && err == nil ==> (exists k Int :: 0 <= k && k < len(arr(value)) && result == arr(value)[k])
+//@ func evaluator.arrayMinBy
+//@   ensures type.array: !isArr(value) ==> result == nil && isTypeErr(err)
+//@   ensures failure: err != nil ==> result == nil
+//@   ensures empty: isArr(value) && len(arr(value)) == 0 ==> err == nil && result == nil
+//@   ensures[C13 C19] first.key: isArr(value) && len(arr(value)) >= 1 && err == nil ==> isEv(e.root, node, arr(value)[0], variables, call1) && (isStr(call1) || numOk(call1))
+//@   ensures[C13] element: isArr(value) && len(arr(value)) >= 1 && err == nil ==> (exists k Int :: 0 <= k && k < len(arr(value)) && result == arr(value)[k])
